@@ -22,7 +22,10 @@ RULE = ("per class (all classes with __eq__/__hash__ in the anchored files, all 
         "paired with itself, a deepcopy, rebuilds with every id set inserted in reversed / rotated / shuffled order "
         "(ids drawn from a pool colliding modulo 8), and for EVERY constructor parameter (exhaustive; from "
         "inspect.signature) local changes of its value (reals by 3e-10, 1e-7, 0.25; array elements first/middle/last; "
-        "ids added/removed/replaced; nested attributes) and values of freshly generated instances. "
+        "ids added/removed/replaced; nested attributes) and values of freshly generated instances; histories: an "
+        "instance is hashed and compared, then changed through public mutators (property setters with the value of a "
+        "valid single-attribute change, optionally set back; translate_rotate; convert_to_2d of 3-D lanelet polylines) "
+        "and paired with a never-used instance after the same mutators (hist) and with a fresh original (hist0). "
         "distinct = distinct (class, x, y) specs; non-trivial = the pair is not (x, x)")
 ASSUME = ["a perturbation counts only if the read-back value of the parameter changed: reals by > 1.5e-10, id sets as "
           "sets, None vs empty collection not counted (DESIGN 2.7); pairs whose only difference is <= 1e-10 are used "
@@ -60,6 +63,8 @@ def make_pair(case):
     if x is None:
         return None
     rel = case["rel"]
+    if rel in ("hist", "hist0"):
+        return make_hist_pair(case, x)
     if rel == "same":
         return x, x
     if rel == "copy":
@@ -68,6 +73,57 @@ def make_pair(case):
     if y is None:
         return None
     return x, y
+
+
+def prime(x):
+    """what an earlier use of the object may have memoised: hash, comparison with a copy and with itself"""
+    for f in (lambda: hash(x), lambda: x == copy.deepcopy(x), lambda: x == x, lambda: str(x)):
+        try:
+            f()
+        except Exception:  # noqa - judged by the plain cases
+            pass
+
+
+def apply_mutations(obj, muts):
+    """public mutators only; returns (object after the history, None) or (None, exception class name)"""
+    import numpy as np
+    for m in muts:
+        try:
+            if m["k"] == "set":
+                setattr(obj, m["acc"], K.build(m["v"]))
+            elif m["k"] == "tr":
+                r = obj.translate_rotate(np.array(m["t"], dtype=float), float(m["a"]))
+                if r is not None and isinstance(r, type(obj)):
+                    obj = r     # shapes / states return the moved object
+            elif m["k"] == "2d":
+                obj.convert_to_2d()
+            else:
+                raise ValueError(m["k"])
+        except Exception as e:  # noqa - a mutator that rejects the call: the history is not judged
+            return None, type(e).__name__
+    return obj, None
+
+
+def make_hist_pair(case, x1):
+    """x1: used (hashed, compared) BEFORE the public mutators ran; hist: against x2 = same history, never used before;
+    hist0: against a fresh object built from the original spec"""
+    prime(x1)
+    x1m, e1 = apply_mutations(x1, case["muts"])
+    x2, _ = K.try_build(case["x"])
+    x2m, e2 = apply_mutations(x2, case["muts"])
+    if e1 != e2:
+        raise HistoryAsymmetry(f"the mutators {[m['k'] for m in case['muts']]} end with {e1 or 'no exception'} on an "
+                               f"object that was hashed / compared before and with {e2 or 'no exception'} on a fresh one")
+    if x1m is None:
+        return None
+    if case["rel"] == "hist":
+        return x1m, x2m
+    x0, _ = K.try_build(case["x"])
+    return x1m, x0
+
+
+class HistoryAsymmetry(Exception):
+    pass
 
 
 def judge(case, x, y, rbx, rby, o):
@@ -95,11 +151,19 @@ def judge(case, x, y, rbx, rby, o):
         out.append(("ne-inconsistent", f"x==y is {eq} and x!=y is {ne}"))
     whole = K.rb_diff(rbx, rby)
     if whole == "same" and not eq:
-        kind = {"same": "not-reflexive", "copy": "copy-unequal", "perm": "perm-unequal"}.get(rel, "same-unequal")
+        kind = {"same": "not-reflexive", "copy": "copy-unequal", "perm": "perm-unequal",
+                "hist": "history-unequal", "hist0": "history-unequal"}.get(rel, "same-unequal")
         what = {"same": "x == x is False", "copy": "x == deepcopy(x) is False",
-                "perm": "equal values with another set insertion order compare unequal"}.get(
+                "perm": "equal values with another set insertion order compare unequal",
+                "hist": "after the same public mutators an object that was hashed / compared before and a fresh one "
+                        "hold identical values but compare unequal",
+                "hist0": "an object brought back to its original values by public mutators compares unequal to a "
+                         "fresh one"}.get(
             rel, "objects holding identical values compare unequal")
         out.append((kind, what))
+    if rel == "hist0" and eq and whole == "diff":
+        out.append(("history-stale-equal", f"after {case.get('how')} the object holds other values than a freshly built "
+                                           "one but still compares equal to it (comparison uses data memoised before)"))
     if rel == "pert" and eq:
         dx, dy = dict(rbx[2]), dict(rby[2])
         d = K.rb_diff(dx.get(attr, ("none",)), dy.get(attr, ("none",)), K.setlike_kind(cls, attr)) \
@@ -113,7 +177,10 @@ def judge(case, x, y, rbx, rby, o):
 
 def evaluate(case):
     """returns None (not constructible) or dict(x, y, rbx, rby, obs, verdict)"""
-    p = make_pair(case)
+    try:
+        p = make_pair(case)
+    except HistoryAsymmetry as e:
+        return {"rbx": ("none",), "rby": ("none",), "obs": None, "verdict": [("history-mutator-asymmetric", str(e))]}
     if p is None:
         return None
     x, y = p
@@ -193,6 +260,77 @@ def gen_cases(rng, n_inst, per_attr=3, classes=None, stats=None):
                     k = f"{cname}.{a}"
                     stats.setdefault("no_valid_change", {})
                     stats["no_valid_change"][k] = stats["no_valid_change"].get(k, 0) + 1
+            hs = gen_histories(rng, cname, spec)
+            stats["histories"] = stats.get("histories", 0) + len(hs)
+            cases += hs
+    return cases
+
+
+def to3d(rng, v):
+    """the same spec with a z column on every lanelet polyline (valid input of Lanelet; convert_to_2d drops it)"""
+    if isinstance(v, dict):
+        if v.get("c") == "Lanelet":
+            kw = dict(v["kw"])
+            for a in ("left_vertices", "center_vertices", "right_vertices"):
+                kw[a] = {"a": [list(p[:2]) + [round(rng.uniform(-3, 3), 3)] for p in kw[a]["a"]]}
+            return {"c": "Lanelet", "kw": {k: to3d(rng, x) for k, x in kw.items()}}
+        if v.get("c") in ("StopLine", "TrafficSign", "TrafficLight"):
+            kw = dict(v["kw"])
+            for a in ("start", "end", "position"):
+                if isinstance(kw.get(a), dict) and "a" in kw[a] and len(kw[a]["a"]) == 2:
+                    kw[a] = {"a": list(kw[a]["a"]) + [round(rng.uniform(-3, 3), 3)]}
+            return {"c": v["c"], "kw": {k: to3d(rng, x) for k, x in kw.items()}}
+        return {k: to3d(rng, x) for k, x in v.items()}
+    if isinstance(v, list):
+        return [to3d(rng, x) for x in v]
+    return v
+
+
+def setter_name(cname, a):
+    acc = K.ACCESSOR.get((cname, a), a)
+    if cname in K.STATE_NAMES or cname in ("CustomState", "SignalState"):
+        return acc          # states are plain records: attribute assignment is their public mutator
+    p = getattr(K.CLASSES[cname], acc, None)
+    return acc if isinstance(p, property) and p.fset is not None else None
+
+
+def gen_histories(rng, cname, spec, n_set=3):
+    """use (hash, ==) -> public mutators (property setters with the value of a valid single-attribute change,
+    translate_rotate, convert_to_2d) -> compare: with the same history on a fresh object and with a fresh original"""
+    cls = K.CLASSES[cname]
+    out = []
+    attrs = [a for a in (sorted(spec["kw"]) if cname == "CustomState" else class_attrs(cname)) if setter_name(cname, a)]
+    rng.shuffle(attrs)
+    for a in attrs[:n_set]:
+        cand = [c for c in K.perturbations(rng, spec, a) if not c[1].startswith("sub") and a in c[0].get("kw", {})]
+        rng.shuffle(cand)
+        for y, how in cand[:1]:
+            if K.try_build(y)[0] is None:
+                continue
+            mut = {"k": "set", "attr": a, "acc": setter_name(cname, a), "v": y["kw"][a]}
+            back = {"k": "set", "attr": a, "acc": setter_name(cname, a), "v": spec["kw"][a]} if a in spec["kw"] else None
+            out.append(([mut], f"{cname}.{a} = <{how}>", spec))
+            if back is not None and rng.random() < 0.5:
+                out.append(([mut, back], f"{cname}.{a} = <{how}>; {cname}.{a} = <original>", spec))
+    if callable(getattr(cls, "translate_rotate", None)):
+        ang = rng.choice([0.0, round(rng.uniform(-3, 3), 3), 1.5])
+        tr = {"k": "tr", "t": [round(rng.uniform(-20, 20), 3), round(rng.uniform(-20, 20), 3)], "a": ang}
+        out.append(([tr], "translate_rotate", spec))
+        if attrs:
+            a = attrs[0]
+            cand = [c for c in K.perturbations(rng, spec, a) if c[1].startswith("local") and a in c[0].get("kw", {})]
+            if cand and K.try_build(cand[0][0])[0] is not None:
+                out.append(([tr, {"k": "set", "attr": a, "acc": setter_name(cname, a), "v": cand[0][0]["kw"][a]}],
+                            f"translate_rotate; {cname}.{a} = <{cand[0][1]}>", spec))
+    if callable(getattr(cls, "convert_to_2d", None)):
+        s3 = to3d(rng, spec)
+        if K.try_build(s3)[0] is not None:
+            out.append(([{"k": "2d"}], "convert_to_2d of 3-D polylines", s3))
+        out.append(([{"k": "2d"}], "convert_to_2d", spec))
+    cases = []
+    for muts, how, sp in out:
+        for rel in ("hist", "hist0"):
+            cases.append({"cls": cname, "x": sp, "rel": rel, "muts": muts, "how": how})
     return cases
 
 
@@ -313,18 +451,21 @@ def select_for_corr(evaluated, cap):
     """all same / copy / perm pairs and, per class, perturbation pairs taken round-robin over the attributes"""
     out, per = [], {}
     for i, (c, ev) in enumerate(evaluated):
-        if has_minus_one(ev["rbx"]) or has_minus_one(ev["rby"]):
+        if ev["obs"] is None or has_minus_one(ev["rbx"]) or has_minus_one(ev["rby"]):
             continue
-        if c["rel"] != "pert":
+        if c["rel"] in ("hist", "hist0"):
+            per.setdefault(c["cls"] + " histories", {}).setdefault(c["muts"][0]["k"] + c["rel"], []).append(i)
+        elif c["rel"] != "pert":
             out.append(i)
         else:
             per.setdefault(c["cls"], {}).setdefault(c["attr"], []).append(i)
     for cls, by_attr in per.items():
         n, k = 0, 0
         lists = list(by_attr.values())
-        while n < cap and any(k < len(li) for li in lists):
+        cap_ = max(4, cap // 8) if cls.endswith(" histories") else cap
+        while n < cap_ and any(k < len(li) for li in lists):
             for li in lists:
-                if k < len(li) and n < cap:
+                if k < len(li) and n < cap_:
                     out.append(li[k])
                     n += 1
             k += 1
@@ -422,8 +563,8 @@ def run(ctx):
         if ev is None:
             stats["unbuildable"] = stats.get("unbuildable", 0) + 1
             continue
-        ctx.count({"cls": c["cls"], "x": c["x"], "y": c.get("y"), "rel": c["rel"]}, c["rel"] != "same",
-                  f"{c['rel']}")
+        ctx.count({"cls": c["cls"], "x": c["x"], "y": c.get("y"), "rel": c["rel"], "muts": c.get("muts")},
+                  c["rel"] != "same", f"{c['rel']}")
         ctx.dist["class:" + c["cls"]] = ctx.dist.get("class:" + c["cls"], 0) + 1
         if c["rel"] == "pert":
             matrix.add((c["cls"], c["attr"]))
